@@ -363,6 +363,10 @@ Section T.
     intros [G Hi] Hok. destruct t; cbn [bstep next_intag token_ok] in *.
     - (* Decl *) destruct intag; [discriminate|]. destruct (str_eqb _ _); [|exact I]. cbn. split; assumption.
     - (* PI *) destruct intag; [discriminate|].
+      destruct (reserved_target (ss_text target)).
+      { (* the XML declaration in its other spelling, or the reserved target: the state stays, or an error *)
+        match goal with |- Rs _ (match ?x with Some _ => _ | None => _ end) => destruct x as [v|] end; [|exact I].
+        destruct (str_eqb _ _); [|exact I]. cbn. split; assumption. }
       eapply Rs_bind; [apply Rs_of_res|]. intros [tid t1] _.
       assert (BInv (with_tabs st t1)) as G1 by (eapply BInv_same; [| |exact G]; reflexivity).
       match goal with |- Rs _ (bbind (add_node ?s ?v) _) =>
@@ -447,10 +451,15 @@ Section T.
     destruct (span_get (b_spans st) (KElStart (on_slot cur))) eqn:Es; [exact I|]. eapply Hc; eauto.
   Qed.
 
-  Lemma parse_document_total t next srclen ts : stream_shape false ts = true ->
-    Rs (fun _ => True) (parse_document bi t next srclen ts).
+  Lemma J_new_at d t next : J false (with_dstart (builder_new bi t next) d).
   Proof.
-    intros Hs. unfold parse_document. eapply Rs_bind; [apply (brun_total ts false _ (J_new t next) Hs)|]. intros st G.
+    split; [|reflexivity]. split; cbn; [reflexivity|]. constructor; [|constructor]. split; cbn; [exact I|discriminate].
+  Qed.
+
+  Lemma parse_document_at_total bom t next srclen ts : stream_shape false ts = true ->
+    Rs (fun _ => True) (parse_document_at bi bom t next srclen ts).
+  Proof.
+    intros Hs. unfold parse_document_at. eapply Rs_bind; [apply (brun_total ts false _ (J_new_at _ t next) Hs)|]. intros st G.
     destruct (b_stack st) as [|doc rest] eqn:E.
     - apply unclosed_spec; [exact G|]. rewrite E. discriminate.
     - destruct rest as [|x rest].
@@ -462,6 +471,10 @@ Section T.
       + apply unclosed_spec; [exact G|]. rewrite E. discriminate.
   Qed.
 
+  Lemma parse_document_total t next srclen ts : stream_shape false ts = true ->
+    Rs (fun _ => True) (parse_document bi t next srclen ts).
+  Proof. apply parse_document_at_total. Qed.
+
   Lemma parse_fragment_total t next ts : stream_shape false ts = true ->
     Rs (fun _ => True) (parse_fragment bi t next ts).
   Proof.
@@ -471,9 +484,13 @@ Section T.
     - destruct rest as [|x rest]; [exact I|]. apply unclosed_spec; [exact G|]. rewrite E. discriminate.
   Qed.
 
+  Theorem parse_document_at_never_panics bom t next srclen ts : stream_shape false ts = true ->
+    parse_document_at bi bom t next srclen ts <> BPanic.
+  Proof. intros Hs E. pose proof (parse_document_at_total bom t next srclen ts Hs) as H. rewrite E in H. exact H. Qed.
+
   Theorem parse_document_never_panics t next srclen ts : stream_shape false ts = true ->
     parse_document bi t next srclen ts <> BPanic.
-  Proof. intros Hs E. pose proof (parse_document_total t next srclen ts Hs) as H. rewrite E in H. exact H. Qed.
+  Proof. apply parse_document_at_never_panics. Qed.
 
   Theorem parse_fragment_never_panics t next ts : stream_shape false ts = true ->
     parse_fragment bi t next ts <> BPanic.
